@@ -23,12 +23,14 @@ CONFIGS = {
     "S5d": (dict(Texts='{"t1"}', MsgKinds='{"open","change","close","save"}', EnableReindex='TRUE', MaxMsgs=3, OnDisk='{"u1"}', MaxDisk=0), 400, None),
     "S5x": (dict(Texts='{"t1","t2"}', MsgKinds='{"open","change","close","save"}', EnableReindex='TRUE', MaxMsgs=4), None, 5000),
     "S2i": (dict(Texts='{"t1","t2"}', MsgKinds='{"change","close","cfg"}', MaxCfg=1, MaxDisk=0, OnDisk='{}', MaxMsgs=2, InitOpen='{"u1"}'), 800, None),
+    "S6": (dict(Texts='{"t1","t2"}', MsgKinds='{"open","change","close"}', MaxMsgs=3, Outside='{"u1"}'), 400, None),
+    "S6c": (dict(Texts='{"t1","t2"}', MsgKinds='{"change","close","cfg"}', MaxCfg=1, MaxMsgs=2, Outside='{"u1"}', CfgAddsLib='TRUE', InitOpen='{"u1"}'), 400, None),
     "S2n": (dict(Texts='{"t1"}', MsgKinds='{"open","close","cfg"}', MaxCfg=1, MaxDisk=1, OnDisk='{}', MaxMsgs=3), 300, None),
 }
 
 PLAN = {
-    "C27": {"quick": ["S1", "S1d"], "thorough": ["S1", "S1d", "S1x", "S1u2"]},
-    "C29": {"quick": ["S2", "S2n", "S2i", "S5"], "thorough": ["S2", "S2n", "S2i", "S5", "S5d", "S2c", "S5x"]},
+    "C27": {"quick": ["S1", "S1d", "S6"], "thorough": ["S1", "S1d", "S6", "S1x", "S1u2"]},
+    "C29": {"quick": ["S2", "S2n", "S2i", "S6c", "S5"], "thorough": ["S2", "S2n", "S2i", "S6c", "S5", "S5d", "S2c", "S5x"]},
     "C30": {"quick": ["S4", "S1", "S5"], "thorough": ["S4", "S1", "S5", "S5d", "S4x", "S2", "S5x"]},
 }
 
